@@ -373,6 +373,23 @@ func ruleExactExtraction(c *Ctx, rule string) {
 			return
 		}
 		seen[key] = true
+		if key == "math/big.Rat.SetString" {
+			// SetString reports failure in its second result (and leaves the receiver in an unspecified state)
+			examined := false
+			if call.Referrers() != nil {
+				for _, r := range *call.Referrers() {
+					if ex, ok := r.(*ssa.Extract); ok && ex.Index == 1 && ex.Referrers() != nil {
+						for _, r2 := range *ex.Referrers() {
+							switch r2.(type) {
+							case *ssa.If, *ssa.UnOp, *ssa.BinOp, *ssa.Phi, *ssa.Return:
+								examined = true
+							}
+						}
+					}
+				}
+			}
+			c.R.Check(examined, rule, "extractor:SetString:failure-examined", c.pos(call), "whether big.Rat accepted the number's text is examined", "the number extractor ignores whether big.Rat.SetString accepted the text: for a number it refuses (an exponent beyond its limit) the rational keeps whatever was parsed so far, and 1e9999999 is silently treated as 1 by minimum/maximum, enum and const")
+		}
 		arg := call.Call.Args[1]
 		ac, isCall := arg.(*ssa.Call)
 		okArg := isCall && core.CalleeKey(&ac.Call) == w[0] && (w[1] == "" || subj[ac.Call.Args[0]])
@@ -2386,4 +2403,106 @@ func ruleNumberExtractionTotal(c *Ctx, rule string) {
 		})
 	}
 	c.R.Floor(rule, "\"not a number\" exits of the number extractor", n, 2)
+}
+
+func init() {
+	for _, pid := range []string{"C08", "C01"} {
+		pid := pid
+		Properties[pid].Rules = append(Properties[pid].Rules, Rule{pid + "/classifier-covers-kinds", func(c *Ctx) { ruleClassifierCoversKinds(c, pid+"/classifier-covers-kinds") }})
+	}
+}
+
+// The type classifier names every Go kind that carries a JSON value: "array" for Array and Slice, "object" for Map
+// and Struct, "string" for String, "boolean" for Bool - the same kinds for which the evaluator runs the array, object
+// and string keyword groups. A kind dropped from one arm falls into the "not a JSON value" default: `type` rejects
+// a Go array, and under not/anyOf/if the verdict flips silently.
+func ruleClassifierCoversKinds(c *Ctx, rule string) {
+	cls := c.TypeClassifier(rule)
+	if cls == nil {
+		return
+	}
+	subj := c.subjectsDeep(cls, cls.Params[0])
+	kf := c.kindFlowWithTypeTests(cls, func(v ssa.Value) bool { return subj[v] }, nil)
+	got := map[string]KindSet{}
+	for _, fn := range core.WithAnon(cls) {
+		core.EachInstr(fn, func(i ssa.Instruction) {
+			ret, ok := i.(*ssa.Return)
+			if !ok || fn != cls || len(ret.Results) == 0 {
+				return
+			}
+			for _, src := range append(traceSources(ret.Results[0]), ret.Results[0]) {
+				if s, ok := constString(src); ok && s != "" {
+					got[s] |= kf.At(ret)
+				}
+			}
+		})
+	}
+	want := map[string]KindSet{"array": Kinds(kArray, kSlice), "object": Kinds(kMap, kStruct), "string": Kinds(kString), "boolean": Kinds(kBool)}
+	for _, name := range []string{"array", "boolean", "object", "string"} {
+		w := want[name]
+		c.R.Check(w.SubsetOf(got[name]), rule, "classifier:"+name, c.P.Pos(cls.Pos()), fmt.Sprintf("%q is answered for every kind in %s", name, w),
+			fmt.Sprintf("the type classifier answers %q only for the kinds %s, not for all of %s: an instance of the missing kind is \"not a JSON value\" for the `type` keyword although the %s keywords still apply to it, so `type` rejects it and not/anyOf/if built on `type` flip", name, got[name]&w, w, name))
+	}
+}
+
+func init() {
+	for _, pid := range []string{"C12", "C08", "C11"} {
+		pid := pid
+		Properties[pid].Rules = append(Properties[pid].Rules, Rule{pid + "/struct-fields-agree", func(c *Ctx) { ruleStructFieldsAgree(c, pid+"/struct-fields-agree") }})
+	}
+}
+
+// Equality and the hasher look at the same fields of a struct: if one of them passes over unexported fields
+// (a guard on StructField.IsExported around the member recursion) the other one does too. Otherwise two structs that
+// are equal hash differently (the duplicate is never compared), or the other way round.
+func ruleStructFieldsAgree(c *Ctx, rule string) {
+	eq := c.Equality(rule)
+	h := c.Hasher(rule)
+	if eq == nil || h == nil {
+		return
+	}
+	// member recursion: a call (of the function itself, or of a local closure that does its work) whose argument is a
+	// field taken out of the subject with Field/FieldByIndex/FieldByName
+	guarded := func(root *ssa.Function) (n int, exportedOnly, all bool) {
+		all = true
+		for _, fi := range c.familyInstrs(root) {
+			call, ok := fi.I.(*ssa.Call)
+			if !ok {
+				continue
+			}
+			member := false
+			for _, a := range call.Call.Args {
+				if fc, ok := a.(*ssa.Call); ok {
+					switch core.CalleeKey(&fc.Call) {
+					case "reflect.Value.Field", "reflect.Value.FieldByIndex", "reflect.Value.FieldByName":
+						member = true
+					}
+				}
+			}
+			if !member || (call.Call.StaticCallee() != root && call.Call.StaticCallee() != nil && !isNested(call.Call.StaticCallee(), root)) {
+				continue
+			}
+			n++
+			g := false
+			for _, ga := range famGuards(fi) {
+				if gc, ok := ga.Cond.(*ssa.Call); ok && ga.Pol && core.CalleeKey(&gc.Call) == "reflect.StructField.IsExported" {
+					g = true
+				}
+			}
+			if g {
+				exportedOnly = true
+			} else {
+				all = false
+			}
+		}
+		return n, exportedOnly, all && exportedOnly
+	}
+	nEq, eqSome, eqAll := guarded(eq)
+	nH, hSome, hAll := guarded(h)
+	if nEq == 0 || nH == 0 {
+		c.R.OK(rule, "no-struct-recursion", "", fmt.Sprintf("member recursions on struct fields: equality %d, hasher %d: nothing to compare", nEq, nH))
+		return
+	}
+	c.R.Check(eqSome == hSome && eqAll == hAll, rule, "exported-fields-only", c.P.Pos(h.Pos()), "equality and the hasher agree on whether unexported struct fields count",
+		fmt.Sprintf("equality passes over unexported struct fields: %v; the hasher does: %v: two structs that differ only in a field one of the two functions ignores are equal but hash differently (uniqueItems never compares them), or hash alike and compare unequal", eqAll, hAll))
 }
